@@ -115,6 +115,18 @@ def check_case(ctx, case, workload="enum"):
             t6 = fl6.decays[m]
             if Counter({a: b for a, b in dict(t6.daughters).items() if b}) != leaves or not math.isclose(t6.bf, bf, rel_tol=1e-9, abs_tol=1e-290):
                 ctx.violate("flatten:wrong-after-an-abandoned-call", f"flatten after a call abandoned at {where} gave {dict(t6.daughters)} bf={t6.bf}, expected {dict(leaves)} bf={bf}", w6)
+        # ... and the other questions: nothing kept stable any more
+        leaves0, bf0 = chains.ref_leaves(types, m, set())
+        ok7, vb7 = ctx.guard("visible_bf:after-abandoned-call", w6, lambda: dc.visible_bf)
+        contracts.drain()
+        if ok7 and not math.isclose(vb7, bf0, rel_tol=1e-9, abs_tol=1e-290):
+            ctx.violate("visible_bf:wrong-after-an-abandoned-flatten", f"visible_bf {vb7} after a flatten(stable_particles={S}) abandoned at {where}; product of the whole tree {bf0}", w6)
+        ok8, fl8 = ctx.guard("flatten:after-abandoned-call", w6, dc.flatten)
+        contracts.drain()
+        if ok8:
+            t8 = fl8.decays[m]
+            if Counter({a: b for a, b in dict(t8.daughters).items() if b}) != leaves0 or not math.isclose(t8.bf, bf0, rel_tol=1e-9, abs_tol=1e-290):
+                ctx.violate("flatten:wrong-after-an-abandoned-call", f"flatten() after flatten(stable_particles={S}) abandoned at {where} gave {dict(t8.daughters)} bf={t8.bf}, expected {dict(leaves0)} bf={bf0}", w6)
     if S and ctx.rng.random() < 0.3:
         # the next question to the same chain, without a stable set: everything is substituted, whatever was asked before
         ctx.hit("flatten-without-stable-set-after-one-with")
@@ -275,6 +287,23 @@ def run(ctx):
                 o = list(reversed(names))        # every child in front of its parent (the order DecayChain.from_dict produces)
             S = [] if j == 0 else ctx.rng.sample(others, ctx.rng.randint(0, min(3, len(others))))
             check_case(ctx, {"chain": ch, "order": o, "stable": S, "stable_type": stypes[(i + j) % 3], "visible": j == 0}, "gen")
+    # one-body decays at the top (K0 -> K_S0, B0 -> MyB0): the whole final state of the mother is replaced in one substitution
+    for i in range(ctx.pick(40, 300)):
+        r = ctx.rng
+        a, b, c = r.sample(["K_S0", "pi0", "MyD0", "eta", "K*0", "rho0", "omega", "phi"], 3)
+        top = r.choice(["K0", "B0", "MyB0", "X(3872)"])
+        types = {top: [round(r.uniform(0.05, 0.95), 4), [a]],
+                 a: [round(r.uniform(0.05, 0.95), 4), [b] * r.choice([1, 2]) + r.choice([[], ["gamma"], [c]])],
+                 b: [round(r.uniform(0.05, 0.95), 4), r.choice([["gamma", "gamma"], ["pi+", "pi-"], [c, "gamma"]])]}
+        if any(c in v[1] for v in types.values()):
+            types[c] = [round(r.uniform(0.05, 0.95), 4), ["e+", "e-"]]
+        ch = {"mother": top, "types": types}
+        names = list(types)
+        ctx.hit("one-body-decay-at-the-top")
+        for j in range(3):
+            o = names[:] if j == 0 else (list(reversed(names)) if j == 1 else r.sample(names, len(names)))
+            S = [] if j < 2 else r.sample(names[1:], r.randint(0, 1))
+            check_case(ctx, {"chain": ch, "order": o, "stable": S, "stable_type": stypes[j], "visible": True}, "gen")
     # long cascades (one decaying daughter per level), the mapping given parent-first, child-first and shuffled
     for depth in (11, 13, 17, 24, 32):
         if not ctx.mine(depth):
